@@ -960,6 +960,43 @@ class ExprMixin(ExecBase):
             res.append((s, r))
         return res
 
+    # {k for k in S if cond} / {k for k, v in D.items() if cond(k, v)}: the element is the (key) variable itself, the filters
+    # are pure; the result is exactly the set of domain members that pass the filters (a set needs no order)
+    def ev_SetComp(self, e, st):
+        gens = e.generators
+        if self.spec or len(gens) != 1 or gens[0].is_async:
+            raise Unsupported("set comprehension shape (line %s)" % getattr(e, "lineno", "?"))
+        g = gens[0]
+        if any(isinstance(x, (ast.Call, ast.Await, ast.NamedExpr, ast.Yield, ast.Lambda)) for f in g.ifs for x in ast.walk(f)):
+            raise Unsupported("set comprehension filter with a call (line %s)" % e.lineno)
+        res = []
+        for s, v0 in self.ev(g.iter, st):
+            env = {}
+            if v0.ty == PYOBJ and v0.t.kind == "dictitems":
+                d = self.deref_dictlike(s, v0.t.dict)
+                if not (isinstance(g.target, ast.Tuple) and len(g.target.elts) == 2 and all(isinstance(x, ast.Name) for x in g.target.elts)):
+                    raise Unsupported("set comprehension over items() needs a (key, value) target (line %s)" % e.lineno)
+                q = z3.FreshConst(d.ty.k.sort(), "sq")
+                guard = z3.Select(T.dict_dom(d), q)
+                env[g.target.elts[0].id] = V(d.ty.k, q)
+                env[g.target.elts[1].id] = V(d.ty.v, z3.Select(T.dict_val(d), q))
+                keyname = g.target.elts[0].id
+                kty = d.ty.k
+            else:
+                if not isinstance(g.target, ast.Name):
+                    raise Unsupported("set comprehension target (line %s)" % e.lineno)
+                bvs, guard, el, _ = self._comp_level(self.deref_dictlike(s, v0) if v0.ty != PYOBJ else v0)
+                if len(bvs) != 1 or not z3.is_const(el.t) or not z3.eq(el.t, bvs[0]):
+                    raise Unsupported("set comprehension over %s (line %s)" % (v0.ty, e.lineno))
+                q, kty, keyname = bvs[0], el.ty, g.target.id
+                env[keyname] = el
+            if not (isinstance(e.elt, ast.Name) and e.elt.id == keyname):
+                raise Unsupported("set comprehension element must be the (key) variable (line %s)" % e.lineno)
+            for f in g.ifs:
+                guard = z3.And(guard, self.truthy(s, self.spec_eval(f, s, extra=env)))
+            res.append((s, V(Set(kty), z3.Lambda([q], guard))))
+        return res
+
     def ev_Dict(self, e, st):
         if e.keys:
             # a literal dict is only supported as an opaque payload (e.g. an exception argument)
